@@ -148,6 +148,12 @@ class RtPart(Part):
                     return "0,2,%d" % n
             if paused:
                 return "1"
+            if stops and stops[0][1] == 15:
+                # ended by the read-rate rule: a frame must have been incomplete when the timer fired
+                n = stops[0][0]
+                _, part_then, _ = frames_hook(flen, [(t, bs) for (t, bs) in writes if t <= n])
+                if not part_then:
+                    return "0,7,%d" % n
             t_last = times[-1] if times else 0
             # with the read-rate rule on, an incomplete frame is governed by that rule (clause 4)
             if ka > 0 and horizon - 1 >= t_last + ka + 1 and not (rr_t and partial):
@@ -265,6 +271,8 @@ CLAUSES = {
     "3": "no complete packet arrived for the keep-alive period but the connection was not ended with a "
          "keep-alive timeout (MQTT 5: DISCONNECT 0x8D)",
     "4": "a frame made no progress for two read periods but the connection was not ended with a read timeout",
+    "7": "the connection was ended with a read timeout although every byte received belonged to a complete "
+         "packet (a live or merely idle peer was dropped by the read-rate rule)",
     "5": "the connect timeout was not enforced (or a CONNECT in time was not accepted)",
     "6": "the client did not write a PINGREQ once per keep-alive period (or wrote one without keep-alive)",
 }
